@@ -54,6 +54,14 @@ Theorem C06_xor_is_spec : forall b key, xor_op b key = xor_spec b key.
 Proof. exact xor_op_is_spec. Qed.
 Print Assumptions C06_xor_is_spec.
 
+(* ---- keyNextSync's guard: no re-key is announced while the Session is being migrated (its keys
+   are already marshalled for the new process), nor while a pair is pending, nor by a server ---- *)
+Theorem C06_no_rekey_while_moving :
+  (forall c p, roll_allowed c p true = false) /\ (forall c m, roll_allowed c true m = false) /\
+  (forall c p m, roll_allowed c p m = true <-> c = true /\ p = false /\ m = false).
+Proof. exact (conj no_rekey_while_moving (conj no_rekey_while_pending roll_allowed_iff)). Qed.
+Print Assumptions C06_no_rekey_while_moving.
+
 (* ---- the text form of a key (String / Parse): restoring saved keys gives the same bytes ------ *)
 Theorem C06_key_text_roundtrip : forall b, Forall (fun x => 0 <= x) b -> hex_dec (hex_enc b) = b.
 Proof. exact hex_roundtrip. Qed.
